@@ -13,6 +13,12 @@ terminate-pending: MemmappingExecutor.terminate(kill_workers=False) while a subm
         still find its file and return the right value.
 two-calls: two Parallel objects share the reusable loky executor; call B (generator) is blocked on a task while the
         unrelated call A completes: B's memmap file, folder and context must survive the end of A.
+same-array-contexts: the real ArrayMemmapForwardReducer + manager: ONE large array sent under three successive contexts
+        (a loop over Parallel objects on the shared executor), the worker's MAYBE_UNLINK played by the driver: the file
+        must outlive the first release in every context; registers per context are counted.
+delete-race: delete_folder(allow_non_empty=False) on a folder that is non-empty at the first listing and empty right
+        after it (os.listdir of joblib.disk wrapped), and the real end-of-call clean-up with the tracker resumed 0.25 s
+        after it started: the folder must be gone afterwards.
 kill-werror: the same with ``python -W error`` (inherited by the tracker): known finding F18b.
 Observed: the workers see an existing memmap file under JOBLIB_TEMP_FOLDER while the call runs;
 after the parent is gone (and its workers and tracker have ended) nothing is left there.
@@ -169,6 +175,131 @@ print(json.dumps(out), flush=True)
 """
 
 
+WORKLOAD_CONTEXTS = r"""
+import json, os, sys, time
+import numpy as np
+import joblib
+from joblib._memmapping_reducer import ArrayMemmapForwardReducer, TemporaryResourcesManager
+from joblib.externals.loky.backend import resource_tracker as rt
+
+flag_dir = sys.argv[1]
+root = os.environ["JOBLIB_TEMP_FOLDER"]
+errp = os.path.join(os.path.dirname(flag_dir), "stderr")
+n_sync = [0]
+raw_register = rt.register
+
+def sync():
+    n_sync[0] += 1
+    marker = "jvsync-%d" % n_sync[0]
+    raw_register(marker, "jvsynctype")
+    t0 = time.time()
+    while time.time() - t0 < 15:
+        with open(errp, "rb") as f:
+            if marker.encode() in f.read():
+                return True
+        time.sleep(0.001)
+    return False
+
+sent = []
+def wrap(kind, func):
+    def f(name, rtype):
+        sent.append([kind, rtype, name])
+        return func(name, rtype)
+    return f
+rt.register = wrap("reg", rt.register)
+rt.unregister = wrap("unreg", rt.unregister)
+rt.maybe_unlink = wrap("unl", rt.maybe_unlink)
+
+out = {"problems": [], "contexts": [], "synced": True}
+mgr = TemporaryResourcesManager(root, context_id="ctxA")
+reducer = ArrayMemmapForwardReducer(0, mgr.resolve_temp_folder_name, "r", True, prewarm=False)
+a = np.arange(5000, dtype=np.float64)
+for ctx in ("ctxA", "ctxB", "ctxC"):
+    mgr.set_current_context(ctx)
+    folder = mgr.resolve_temp_folder_name()
+    del sent[:]
+    _, (filename, _, _) = reducer(a)                 # the parent pickles `a` for a task of this call
+    first_regs = sum(1 for k, t, n in sent if k == "reg" and n == filename)
+    rt.maybe_unlink(filename, "file")               # the worker that got the task drops its memmap
+    out["synced"] &= sync()
+    alive_after_first_release = os.path.exists(filename)
+    _, (filename2, _, _) = reducer(a)                # same array, next task of the same call
+    regs = sum(1 for k, t, n in sent if k == "reg" and n == filename)
+    rt.maybe_unlink(filename, "file")               # second worker done
+    out["synced"] &= sync()
+    alive_before_end = os.path.exists(filename)
+    mgr._clean_temporary_resources(context_id=ctx, force=False)   # end of the call
+    out["synced"] &= sync()
+    out["contexts"].append({"ctx": ctx, "same_file": filename2 == filename, "in_folder": os.path.dirname(filename) == folder,
+                            "registers_first_send": first_regs, "registers_total": regs,
+                            "alive_after_first_release": alive_after_first_release, "alive_before_end": alive_before_end,
+                            "folder_gone_after_end": not os.path.exists(folder)})
+print(json.dumps(out), flush=True)
+os._exit(0)
+"""
+
+WORKLOAD_RACE = r"""
+import json, os, signal, sys, threading, time
+import joblib, joblib.disk
+from joblib._memmapping_reducer import TemporaryResourcesManager
+from joblib.externals.loky.backend import resource_tracker as rt
+
+flag_dir = sys.argv[1]
+root = os.environ["JOBLIB_TEMP_FOLDER"]
+out = {}
+
+# (i) delete_folder driven directly: the folder holds one file at the first listing and is emptied right after it
+#     (what the tracker does when it handles the last MAYBE_UNLINK a moment later)
+folder = os.path.join(root, "direct")
+os.makedirs(folder)
+victim = os.path.join(folder, "last.pkl")
+open(victim, "wb").close()
+real_os = os
+class OsProxy(object):
+    calls = 0
+    def __getattr__(self, name):
+        return getattr(real_os, name)
+    def listdir(self, path):
+        r = real_os.listdir(path)
+        OsProxy.calls += 1
+        if OsProxy.calls == 1 and real_os.path.exists(victim):
+            real_os.unlink(victim)
+        return r
+joblib.disk.os = OsProxy()
+t0 = time.time()
+try:
+    joblib.disk.delete_folder(folder, allow_non_empty=False)
+    out["direct_raised"] = None
+except Exception as e:
+    out["direct_raised"] = "%s: %s" % (type(e).__name__, str(e)[:120])
+joblib.disk.os = real_os
+out["direct_listings"] = OsProxy.calls
+out["direct_folder_left"] = os.path.exists(folder)
+out["direct_seconds"] = round(time.time() - t0, 2)
+
+# (ii) the real path: end-of-call clean-up racing with the tracker, which is frozen while the clean-up starts and
+#      resumed 0.25 s later (inside delete_folder's retry window of 10 x 0.1 s)
+mgr = TemporaryResourcesManager(root, context_id="ctxR")
+f2 = mgr.resolve_temp_folder_name()
+os.makedirs(f2)
+fn = os.path.join(f2, "array.pkl")
+open(fn, "wb").close()
+rt.register(fn, "file")
+time.sleep(0.3)
+pid = rt._resource_tracker._pid
+os.kill(pid, signal.SIGSTOP)
+threading.Timer(0.25, lambda: os.kill(pid, signal.SIGCONT)).start()
+mgr._clean_temporary_resources(context_id="ctxR", force=False)
+out["real_folder_left"] = os.path.exists(f2)
+out["real_file_left"] = os.path.exists(fn)
+print(json.dumps(out), flush=True)
+os._exit(0)
+"""
+
+
+OWN_WORKLOAD = ("terminate-pending", "two-calls", "same-array-contexts", "delete-race")
+
+
 def gone(pid):
     try:
         with open("/proc/%d/stat" % pid) as f:
@@ -188,7 +319,8 @@ def main():
     env = dict(os.environ, JOBLIB_TEMP_FOLDER="tmp" if mode == "kill-rel" else tmpf)
     errf = open(os.path.join(base, "stderr"), "wb")
     wflags = ["-W", "error"] if mode == "kill-werror" else []
-    p = subprocess.Popen([sys.executable] + wflags + ["-c", {"terminate-pending": WORKLOAD_TERMINATE, "two-calls": WORKLOAD_TWO_CALLS}.get(mode, WORKLOAD), flags, mode], env=env, stdout=subprocess.PIPE, stderr=errf,
+    p = subprocess.Popen([sys.executable] + wflags + ["-c", {"terminate-pending": WORKLOAD_TERMINATE, "two-calls": WORKLOAD_TWO_CALLS,
+                                                              "same-array-contexts": WORKLOAD_CONTEXTS, "delete-race": WORKLOAD_RACE}.get(mode, WORKLOAD), flags, mode], env=env, stdout=subprocess.PIPE, stderr=errf,
                          stdin=subprocess.DEVNULL, cwd=base)
     res = {"mode": mode, "flags": []}
 
@@ -238,7 +370,7 @@ def main():
                 time.sleep(0.05)
         res["left"] = sorted(os.listdir(tmpf))
         res["waited_s"] = round(time.time() - t0, 2)
-    elif mode in ("terminate-pending", "two-calls"):
+    elif mode in OWN_WORKLOAD:
         pass  # handled below (own workload)
     else:
         try:
@@ -265,7 +397,7 @@ def main():
         while os.listdir(tmpf) and time.time() - t0 < 5:
             time.sleep(0.05)
         res["left"] = sorted(os.listdir(tmpf))
-    if mode in ("terminate-pending", "two-calls"):
+    if mode in OWN_WORKLOAD:
         try:
             out, _ = p.communicate(timeout=90)
             res["workload"] = json.loads(out.decode().strip().splitlines()[-1])
